@@ -105,13 +105,15 @@ T1, T2, T3, T4 = b"\r\n\t", b"\r\n\t\t", b"\r\n\t\t\t", b"\r\n\t\t\t\t"
 
 def plain_text(s, what, allow_empty=True):
     b = s.encode("utf-8") if isinstance(s, str) else s
-    if any(c not in PLAIN for c in b) or b != b.strip() or b"," in b and what != "default" or (not b and not allow_empty):
+    value = what in ("default", "comment", "multiplicity", "modifier", "typeModifier", "initialValue_string", "defaultValue_string")
+    if any(c not in PLAIN for c in b) or b != b.strip() or b"," in b and not (value and b.replace(b",", b"").strip()) or (not b and not allow_empty):
         raise Unencodable("%s %r is not plain text" % (what, s))
     return b
 
 
 def sanitize_comment(s):
-    return "".join(ch for ch in s if ord(ch) < 127 and ord(ch) in PLAIN and ch != ",").strip()
+    t = "".join(ch for ch in s if ord(ch) < 127 and ord(ch) in PLAIN).strip()
+    return t if t.replace(",", "").strip() else ""
 
 
 def normalise(cd):
@@ -406,7 +408,7 @@ NOISE_POOL = [(b"_modelEditable", b"T"), (b"pmAuthor", b'"kohja"'), (b"pmCreateD
 
 
 class Semantic:
-    """builds the value of an sdiagram from a (normalised, association-free) class diagram object graph; ids are invented
+    """builds the value of an sdiagram from a (normalised) class diagram object graph; ids are invented
     except those of the classes; every layout is a random permutation of the present properties and some noise"""
 
     def __init__(self, rng):
@@ -414,6 +416,7 @@ class Semantic:
         self.used = set()
         self.refs = {}          # (kind, name) -> id
         self.ref_rows = []
+        self.nl = rng.choice((b"\r\n", b"\r\n", b"\n"))          # the line break of the whole project (the shipped one mixes both by row)
 
     def new_id(self):
         while True:
@@ -422,8 +425,27 @@ class Semantic:
                 self.used.add(s)
                 return s
 
-    def layout(self, tags):
+    def layout(self, tags, depth=0, kind=""):
+        """the present properties, some scalar noise and some INERT properties (other white space, reference lists, owned elements the
+        reader ignores, free text) in any order; depth = tabs of the element's closing brace"""
         slots = [[b"T", t.encode()] for t in tags] + [[b"N", k, v] for k, v in self.rng.sample(NOISE_POOL, self.rng.randint(0, 3))]
+        ws = self.nl + b"\t" * (depth + 1)
+        for c in self.rng.sample(range(5), self.rng.choice((0, 0, 1, 2))):          # distinct kinds: no property key twice
+            if c == 0:
+                it = [b"F", self.rng.choice((ws, self.nl, ws + b"\t")), self.rng.choice((b"static", b"returnType_string", b"unique")), self.rng.choice((b"T", b'"a, b"', b'""'))]
+            elif c == 1:
+                it = [b"R", ws, self.rng.choice((b"ToSimpleRelationships", b"container", b"classifiers")), b"(" + ws + b"\t", b", " + ws + b"\t", ws + b")",
+                      [self.new_id() + b":" + self.new_id() + b"$" + self.new_id() for _ in range(self.rng.randint(1, 3))]]
+            elif c == 2:
+                view = [self.new_id(), [b"View"], b"ModelView", [[b"R", ws + b"\t\t", b"container", b"", b"", b"", [self.new_id()]],
+                                                             [b"F", ws + b"\t\t", b"view", b'"' + self.new_id() + b'"']], ws + b"\t"]
+                it = [b"C", ws, self.rng.choice((b"_modelViews", b"qualifier", b"multiplicityDetail")), b"(" + ws + b"\t", b", " + ws + b"\t", ws + b")", [view]]
+            elif c == 3:
+                it = [b"W", ws + b'documentation="<head>' + self.nl + b'    <style type=\\"text/css\\">' + self.nl + b"      body { color: #000000; font-size: 11px }" + self.nl
+                      + b"    </style>  </head>  <body>    <p>      It's a note; x=1 (see {a:b:Operation})    </p>  </body>" + b'";']
+            else:
+                it = [b"F", ws, self.rng.choice((b"visibility", b"type_string", b"abstract")) if kind == "free" else b"pmNote", b'"kept, as is"']
+            slots.append([b"I", it])
         self.rng.shuffle(slots)
         return slots
 
@@ -432,7 +454,7 @@ class Semantic:
         if key not in self.refs:
             i = self.new_id()
             self.refs[key] = i
-            self.ref_rows.append([i, e(name), ty, [], self.layout([])])
+            self.ref_rows.append([i, e(name), ty, [], self.nl, self.layout([], 0, "free")])
         return self.refs[key]
 
     def path(self, type_name):
@@ -443,14 +465,14 @@ class Semantic:
         tags = ["typestring" if basic else "type"] + (["dir"] if p["direction"] in ("in", "out") else []) + \
                [t for t, v in (("typemod", p["modifier"]), ("default", p["defaultvalue"]), ("mult", p["multiplicity"])) if v]
         return [self.new_id(), e(p["name"]), [e(p["type"])] if basic else [], [] if basic else self.path(p["type"]),
-                e(p["direction"]) if p["direction"] in ("in", "out") else b"", e(p["modifier"]), e(p["defaultvalue"]), e(p["multiplicity"]), self.layout(tags)]
+                e(p["direction"]) if p["direction"] in ("in", "out") else b"", e(p["modifier"]), e(p["defaultvalue"]), e(p["multiplicity"]), self.nl, self.layout(tags, 4)]
 
     def op(self, o):
         tags = ["vis"] + (["ret"] if o.RETURN_TYPE != "void" else []) + (["typemod"] if o.RETURN_TYPE_MODIFIER else []) + \
                (["abstract"] if o.VIRTUAL else []) + (["query"] if o.IS_CONST else []) + (["scope"] if o.IS_STATIC else []) + \
                (["doc"] if o.USER_COMMENTS else []) + (["child"] if o.PARAMETERS else [])
         return [self.new_id(), e(o.NAME), [VIS_B[o.VISIBILITY]], self.path(o.RETURN_TYPE) if o.RETURN_TYPE != "void" else [], e(o.RETURN_TYPE_MODIFIER),
-                bb(o.VIRTUAL), bb(o.IS_CONST), bb(o.IS_STATIC), e(o.USER_COMMENTS), [self.param(p) for p in o.PARAMETERS], self.layout(tags)]
+                bb(o.VIRTUAL), bb(o.IS_CONST), bb(o.IS_STATIC), [b"T", e(o.USER_COMMENTS)], [self.param(p) for p in o.PARAMETERS], self.nl, self.layout(tags, 2)]
 
     def attr(self, a):
         if a.INITIAL_VALUE is not None and not a.INITIAL_VALUE:
@@ -459,8 +481,8 @@ class Semantic:
         tags = (["vis"] if vis else []) + (["type"] if a.TYPE != "void" else []) + \
                [t for t, v in (("typemod", a.TYPE_MODIFIER), ("mult", a.MULTIPLICITY), ("doc", a.USER_COMMENTS), ("init", a.INITIAL_VALUE)) if v] + \
                [t for t, f in (("setter", a.HAS_SETTER), ("getter", a.HAS_GETTER), ("scope", a.IS_STATIC), ("readonly", a.IS_CONST)) if f]
-        return [self.new_id(), e(a.NAME), vis, self.path(a.TYPE) if a.TYPE != "void" else [], e(a.TYPE_MODIFIER), e(a.MULTIPLICITY), e(a.USER_COMMENTS),
-                e(a.INITIAL_VALUE or ""), bb(a.HAS_SETTER), bb(a.HAS_GETTER), bb(a.IS_STATIC), bb(a.IS_CONST), self.layout(tags)]
+        return [self.new_id(), e(a.NAME), vis, self.path(a.TYPE) if a.TYPE != "void" else [], e(a.TYPE_MODIFIER), e(a.MULTIPLICITY), [b"T", e(a.USER_COMMENTS)],
+                e(a.INITIAL_VALUE or ""), bb(a.HAS_SETTER), bb(a.HAS_GETTER), bb(a.IS_STATIC), bb(a.IS_CONST), self.nl, self.layout(tags, 2)]
 
     def klass(self, c):
         st = []
@@ -481,9 +503,40 @@ class Semantic:
         if c.ENUM_LITERALS and not c.IS_ENUM:
             raise Unencodable("literals without enumeration")
         members = vs.merge(self.rng, [[b"op", self.op(o)] for o in c.OPERATIONS], [[b"attr", self.attr(a)] for a in c.ATTRIBUTES])
-        members = vs.merge(self.rng, members, [[b"lit", self.new_id(), e(l), self.layout([])] for l in c.ENUM_LITERALS])
+        members = vs.merge(self.rng, members, [[b"lit", self.new_id(), e(l), self.nl, self.layout([], 2, "free")] for l in c.ENUM_LITERALS])
         tags = (["stereo"] if st else []) + (["abstract"] if abstract else []) + (["doc"] if c.USER_COMMENTS else []) + (["child"] if members else [])
-        return [e(c.ID), e(c.NAME), [], st, bb(abstract), e(c.USER_COMMENTS), members, self.layout(tags)]
+        return [e(c.ID), e(c.NAME), [], st, bb(abstract), [b"T", e(c.USER_COMMENTS)], members, self.nl, self.layout(tags)]
+
+    def end(self, cd, a, frm, cpath):
+        """one association end; a multiplicity is left out when the reader's default gives the same value whatever the order of the ends"""
+        cid = a.CLASS_FROM_ID if frm else a.CLASS_TO_ID
+        vis, st, co, mu, ge, se = ((a.CLASS_FROM_VISIBILITY, a.CLASS_FROM_IS_STATIC, a.CLASS_FROM_IS_CONST, a.CLASS_FROM_MULTIPLICITY, a.CLASS_FROM_HAS_GETTER, a.CLASS_FROM_HAS_SETTER)
+                                   if frm else (a.CLASS_TO_VISIBILITY, a.CLASS_TO_IS_STATIC, a.CLASS_TO_IS_CONST, a.CLASS_TO_MULTIPLICITY, a.CLASS_TO_HAS_GETTER, a.CLASS_TO_HAS_SETTER))
+        if cid not in cd.classes:
+            raise Unencodable("association end outside the diagram")
+        if not mu:
+            raise Unencodable("association end without multiplicity")
+        omit = mu == "0..1" and (a.TYPE != "Composition" if frm else a.TYPE == "Association") and self.rng.random() < 0.5
+        agg = [b"66" if a.TYPE == "Aggregation" else b"67"] if frm and a.TYPE != "Association" else []
+        if st:
+            if vis != "private":
+                raise Unencodable("static association end with a visibility")
+            code = [b"68"]
+        elif vis != "private" or self.rng.random() < 0.5:
+            if vis not in VIS_B:
+                raise Unencodable("association visibility %r" % vis)
+            code = [VIS_B[vis]]
+        else:
+            code = []
+        tags = ["dir", "type"] + ([] if omit else ["mult"]) + (["agg"] if agg else []) + (["vis"] if code else []) + \
+               [t for t, f in (("getter", ge), ("setter", se), ("readonly", co)) if f]
+        return [self.new_id(), self.rng.choice([[], [b""]]), cpath(cid), b"" if omit else e(mu), agg, code, bb(ge), bb(se), bb(co), self.nl, self.layout(tags, 1)]
+
+    def assoc(self, cd, a, cpath):
+        if a.TYPE not in ("Association", "Aggregation", "Composition"):
+            raise Unencodable("association type %r" % a.TYPE)
+        return [self.new_id(), [e(a.NAME)] if a.NAME or self.rng.random() < 0.5 else [], [], [b"T", e(a.USER_COMMENTS)], self.end(cd, a, True, cpath),
+                self.end(cd, a, False, cpath), self.nl, self.layout(["from", "to"] + (["doc"] if a.USER_COMMENTS else []))]
 
     def build(self, cd, name=None):
         for cid in cd.classes:
@@ -503,13 +556,15 @@ class Semantic:
         shapes = [[b"class", self.klass(c)] for c in cd.classes.values()]
         for ns in nss:
             paths = [cpath(cid) for cid, c in cd.classes.items() if c.NAMESPACE == "::".join(ns)]
-            shapes.append([b"package", [pkg[ns], e(ns[-1]), [], paths, self.layout(["child"] if paths else [])]])
+            shapes.append([b"package", [pkg[ns], e(ns[-1]), [], paths, self.nl, self.layout(["child"] if paths else [])]])
         for i in cd.inheritence.values():
             if i.CLASS_FROM_ID not in cd.classes or i.CLASS_TO_ID not in cd.classes:
                 raise Unencodable("inheritance to a class outside the diagram")
-            shapes.append([b"inh", [self.new_id(), [], bb(i.IS_REALIZATION), cpath(i.CLASS_FROM_ID), cpath(i.CLASS_TO_ID), self.layout(["from", "to"])]])
+            shapes.append([b"inh", [self.new_id(), [], bb(i.IS_REALIZATION), cpath(i.CLASS_FROM_ID), cpath(i.CLASS_TO_ID), self.nl, self.layout(["from", "to"])]])
+        for a in cd.associations.values():
+            shapes.append([b"assoc", self.assoc(cd, a, cpath)])
         if self.rng.random() < 0.3:
-            shapes.append([b"other", self.new_id(), [], b"Usage", [], self.layout([])])
+            shapes.append([b"other", self.new_id(), [], b"Usage", [], self.nl, self.layout([], 0, "free")])
         # shapes in any drawing order, each kind keeping its relative order
         kind = lambda s: s[0]  # noqa: E731
         slots = [kind(s) for s in shapes]
@@ -520,7 +575,6 @@ class Semantic:
 
 
 def semantic_value(rng, cd, name=None):
-    """(kmodel value of the sdiagram, name) for the object graph cd (normalised in place; associations dropped: not in the domain)"""
+    """(kmodel value of the sdiagram, name) for the object graph cd (normalised in place)"""
     normalise(cd)
-    cd.associations.clear()
     return Semantic(rng).build(cd, name), (name or cd.name).encode()
